@@ -3,19 +3,23 @@
    LR 5..7 instead of 64..254: an INF frame carries 2..4 bytes, payloads of 1..3 chunks. *)
 EXTENDS NfcDep
 
-Cfg(lrI, lrT, did, nad, fixmiu, R) ==
-    [lrI |-> lrI, lrT |-> lrT, did |-> did, nad |-> nad,
+CfgD(lrI, lrT, did, did0, nad, fixmiu, R) ==
+    [lrI |-> lrI, lrT |-> lrT, did |-> did, tdid |-> did /\ ~did0, did0 |-> did0, nad |-> nad,
      miuI |-> lrT - 3 - B(did) - B(nad),
-     miuT |-> lrI - 3 - (IF fixmiu THEN B(did) ELSE 0), R |-> R]
+     miuT |-> lrI - 3 - (IF fixmiu THEN B(did /\ ~did0) ELSE 0), R |-> R]
+Cfg(lrI, lrT, did, nad, fixmiu, R) == CfgD(lrI, lrT, did, FALSE, nad, fixmiu, R)
 
 \* code as repaired: all three variants on
-MC_VsFixed == {{"ack", "atn"}}
+MC_VsFixed == {{"ack", "atn", "did0"}}
 MC_VsAsIs  == {{}}
 
 \* quick: no DID / with DID (repaired MIU), different MIUs per direction
-MC_CfgsFixed == {Cfg(5, 5, FALSE, FALSE, TRUE, 2), Cfg(6, 5, TRUE, FALSE, TRUE, 2), Cfg(5, 7, TRUE, TRUE, TRUE, 2)}
+MC_CfgsFixed == {Cfg(5, 5, FALSE, FALSE, TRUE, 2), Cfg(6, 5, TRUE, FALSE, TRUE, 2), Cfg(5, 7, TRUE, TRUE, TRUE, 2),
+                 CfgD(5, 6, TRUE, TRUE, FALSE, TRUE, 2)}
 MC_CfgsThorough == MC_CfgsFixed \cup {Cfg(7, 6, FALSE, FALSE, TRUE, 3)}
 MC_CfgsAsIs  == {Cfg(5, 5, FALSE, FALSE, FALSE, 2), Cfg(6, 6, TRUE, FALSE, FALSE, 2)}
+MC_CfgsDid0  == {CfgD(5, 6, TRUE, TRUE, FALSE, TRUE, 2)}
+MC_VsHead    == {{"ack", "atn"}}            \* /repo HEAD: did=0 still open
 MC_CfgsNoDid == {Cfg(5, 5, FALSE, FALSE, FALSE, 2)}
 MC_Lens  == {1, 2, 3, 5}
 MC_LensT == {1, 2, 3, 4, 5, 6}
